@@ -32,7 +32,9 @@ enum RefResult {
     NoCategory,
 }
 
-fn reference(input: &str) -> RefResult {
+/// `trim_categories`: whether the text between the brackets is trimmed (the statement fixes the trimming of
+/// ingredient names only, so an implementation may do either; both readings are computed)
+fn reference(input: &str, trim_categories: bool) -> RefResult {
     let mut cats: Vec<(String, Vec<Vec<String>>)> = Vec::new();
     let mut seen_cat: Vec<String> = Vec::new();
     let mut seen_name: Vec<String> = Vec::new();
@@ -48,6 +50,7 @@ fn reference(input: &str) -> RefResult {
         }
         if line.starts_with('[') && line.ends_with(']') && line.len() >= 2 {
             let name = &line[1..line.len() - 1];
+            let name = if trim_categories { name.trim() } else { name };
             if name.contains('|') {
                 return RefResult::BadCategoryName;
             }
@@ -91,7 +94,7 @@ pub fn check(input: &str) -> (Vec<Violation>, bool, u64) {
     let ascii_ws = input.chars().all(|c| !c.is_whitespace() || matches!(c, ' ' | '\n' | '\r' | '\t'));
     // a lone \r is treated as whitespace by trim but is not a line break; keep the reference to \n / \r\n
     let plain_breaks = !input.replace("\r\n", "\n").contains('\r');
-    let reference = (ascii_ws && plain_breaks).then(|| reference(input));
+    let references = (ascii_ws && plain_breaks).then(|| [reference(input, false), reference(input, true)]);
     match parsed {
         Err(e) => {
             let spans: Vec<cooklang::Span> = match &e {
@@ -128,10 +131,11 @@ pub fn check(input: &str) -> (Vec<Violation>, bool, u64) {
                 }
             }
             let _ = e.to_string();
-            if let Some(r) = reference {
+            if let Some(rs) = &references {
                 // which of several errors is reported first is not part of the property
-                let same = !matches!(r, RefResult::Ok(_));
+                let same = rs.iter().any(|r| !matches!(r, RefResult::Ok(_)));
                 if !same {
+                    let r = &rs[0];
                     fail!("aisle result differs from the reference parser", "implementation: {e:?}; reference: {r:?}");
                 }
             }
@@ -265,14 +269,15 @@ pub fn check(input: &str) -> (Vec<Violation>, bool, u64) {
                     }
                 }
             }
-            if let Some(r) = reference {
+            if let Some(rs) = &references {
                 let got: Vec<(String, Vec<Vec<String>>)> = conf
                     .categories
                     .iter()
                     .map(|c| (c.name.to_string(), c.ingredients.iter().map(|i| i.names.iter().map(|n| n.to_string()).collect()).collect()))
                     .collect();
-                if r != RefResult::Ok(got) {
-                    fail!("aisle result differs from the reference parser", "implementation: {:?}; reference: {r:?}", conf.categories);
+                let got = RefResult::Ok(got);
+                if !rs.iter().any(|r| *r == got) {
+                    fail!("aisle result differs from the reference parser", "implementation: {:?}; reference: {:?} (or, with trimmed category names, {:?})", conf.categories, rs[0], rs[1]);
                 }
             }
             let nontrivial = !conf.categories.is_empty();
